@@ -320,3 +320,16 @@ Theorem C13_no_sample_rank : forall sts ps opss sts2 i s1 s2,
   union (grun_all ps opss) <> [] -> holds_union (grun_all ps opss) s2.
 Proof. exact no_sample_rank. Qed.
 Print Assumptions C13_no_sample_rank.
+
+(* variance_mean reads the CLAMPED variance: in the model by definition of `derived` (C13_gen_derived ties the generated Q
+   translation of the four derived assignments to it), and therefore after every compute of every history *)
+Theorem C13_variance_mean_of_clamped : forall s q c, let '(_, v, vm) := derived s q c in vm = (v / inject_Z c)%Q.
+Proof. exact derived_varm. Qed.
+Print Assumptions C13_variance_mean_of_clamped.
+
+Theorem C13_history_variance_mean : forall sts ps rounds opss sts' i xs s2,
+  Forall2 Inv sts ps -> legal_hist ps (rounds ++ [opss]) -> hist sts (rounds ++ [opss]) sts' ->
+  nth_error (grun_all (ghist ps rounds) opss) i = Some (Some xs) -> nth_error sts' i = Some s2 ->
+  (v_varm s2 == v_var s2 / inject_Z (v_count s2))%Q /\ (0 <= v_var s2)%Q /\ (0 <= v_varm s2)%Q.
+Proof. exact history_variance_mean. Qed.
+Print Assumptions C13_history_variance_mean.
